@@ -171,6 +171,33 @@ theorem C04_view_ops (m : Mode) (lim : Nat) (v : VW) (buf : List α) (h : v.Inv 
       rw [l3, ok_bind, Recv.runAll_root_shape m lim (v.ownedOf buf) (v.ownedOf b) rfl rfl]
       exact j3
 
+/-- … and a sequence that is cut short by a rejected call (or a panic of caller code) is cut short on the owned array by the same
+    error -/
+theorem C04_view_ops_fail (m : Mode) (lim : Nat) (v : VW) (buf : List α) (h : v.Inv buf.length) (ops : List (MOp α))
+    (hs : ∀ op ∈ ops, op.Sane ∧ op.srcOk) (e : Err) (he : (Recv.vmut v).runAll m lim buf ops = .error e) :
+    (Recv.root (v.ownedOf buf)).runAll m lim (v.cellsOf buf) ops = .error e := by
+  induction ops generalizing buf with
+  | nil => cases he
+  | cons op ops ih =>
+    obtain ⟨hsop, hsrc⟩ := hs op (List.mem_cons_self ..)
+    obtain ⟨_, _, o3, o4⟩ := C04_view_op m lim v buf h op hsop hsrc
+    have hstep : (Recv.vmut v).runAll m lim buf (op :: ops)
+        = ((Recv.vmut v).run m lim buf op >>= fun b => (Recv.vmut v).runAll m lim b ops) := rfl
+    show ((Recv.root (v.ownedOf buf)).run m lim (v.cellsOf buf) op >>= fun b =>
+      (Recv.root (v.ownedOf buf)).runAll m lim b ops) = _
+    cases hr : (Recv.vmut v).run m lim buf op with
+    | error e' =>
+      rw [hstep, hr, err_bind] at he
+      injection he with he
+      subst he
+      rw [o4 e' hr, err_bind]
+    | ok b =>
+      obtain ⟨l1, _, l3⟩ := o3 b hr
+      have hb : v.Inv b.length := by rw [l1]; exact h
+      rw [hstep, hr, ok_bind] at he
+      rw [l3, ok_bind, Recv.runAll_root_shape m lim (v.ownedOf buf) (v.ownedOf b) rfl rfl]
+      exact ih b hb (fun op' hop' => hs op' (List.mem_cons_of_mem _ hop')) he
+
 /-- nested views: a view of a view is a view of the same root buffer whose cells are cells of the outer view, so everything
     outside the *outer* view is outside the inner one too -/
 theorem C04_nested_frame (m : Mode) (v : VW) (n : Nat) (h : v.Inv n) (s e : Nat × Nat) (v' : VW)
